@@ -52,6 +52,8 @@ def run(ctx):
     ctx.rule("R02.b", "update's own unknown-key check precedes the first setattr of that key", floor=1)
     ctx.rule("R02.c", "validators notify nobody: no function reachable from any Parameter type's _validate dispatches watchers (no _trigger_event/_call_watcher/flush, "
                       "no ListProxy notification scope, no mutator call on the objects proxy)", floor=30)
+    ctx.rule("R02.w", "the public update() adds nothing to a rejection: Parameters.update interpreted abstractly with a rejecting _update (instance and class namespace, keywords / dict): "
+                      "the exception propagates and no further assignment, update or dispatch is made on the way out (a 'rollback' through the setter would drop links and notify watchers)", floor=1)
     ctx.rule("R02.m", "setter model: Parameter.__set__ interpreted abstractly on every combination (576) of route x constant/readonly x validation outcome x identity x reference mode x watchers x batching agrees with the specification of this property (see checks/setter_model.py)", floor=1)
     ctx.rule("R02.u", "update model: Parameters._update interpreted abstractly (entry batching flag x key orders incl. an Event key x a rejected or unknown key at every position x a value identical to the current one, 60 cases): flag restored, flush exactly once iff outermost and after the restore, keys applied in order up to the failing one, Event mode and reset, complete previous-values mapping", floor=1)
     ctx.not_decided += ["that callees are effect-free before their own raises (Composite._post_setter assigns constituents one by one)",
@@ -164,6 +166,51 @@ def run(ctx):
     from checks import update_model
     update_model.report(ctx, "C02", "R02.u")
 
+    # ---------------------------------------------------------------- R02.w
+    from engine.absint import Interp, Obj, Unsupported, _Raise
+    from engine.loader import AnalysisError
+    up = ctx.repo.func("param.parameterized.Parameters.update")
+    UNDEF = Obj("Undefined")
+    bad = None
+    for instance, form in ((True, "kw"), (True, "dict"), (False, "kw")):
+        calls = []
+
+        def hook(fn, args, kwargs, calls=calls):
+            if fn in ("self_._update", "self_.update"):
+                calls.append(fn)
+                if len(calls) == 1:
+                    raise _Raise("ValueError")
+                return {}
+            if fn == "setattr" or fn.endswith("._batch_call_watchers") or fn.endswith(".trigger"):
+                calls.append(fn)
+                return None
+            if fn == "self_.values":
+                return {"a": Obj("current_a"), "b": Obj("current_b")}
+            if fn == "_ParametersRestorer":
+                return Obj("restorer")
+            return NotImplemented
+        inst = Obj("instance", _param__private=Obj("private", refs={"a": Obj("ref_of_a")}, async_refs={})) if instance else None
+        ns = Obj("ns", self=inst, self_or_cls=inst or Obj("Cls"))
+        given = {"a": Obj("new_a"), "b": Obj("rejected_b")}
+        it = Interp(ctx.hier, dyn="param.parameterized.Parameters", inline=lambda m: False, call_hook=hook, globals={"Undefined": UNDEF})
+        try:
+            outs = it.run_all(up, {"self_": ns, "arg": UNDEF if form == "kw" else dict(given), "kwargs": dict(given) if form == "kw" else {}})
+        except Unsupported as e:
+            raise AnalysisError("absint cannot interpret Parameters.update: %s -- R02.w cannot decide" % e)
+        ctx.abstract_cases += 1
+        if len(outs) != 1 or outs[0].imprecise:
+            raise AnalysisError("absint imprecise on Parameters.update with a rejecting _update -- R02.w cannot decide")
+        if outs[0].kind != "raise":
+            bad = "the rejection of a value does not propagate out of update()"
+        elif len(calls) != 1:
+            bad = "after _update rejected a value, update() goes on to call %s: parameters are assigned again through the setter (links are dropped, watchers are notified) by a call that raises" % ", ".join(calls[1:])
+        if bad:
+            break
+    if bad:
+        ctx.fail("R02.w", up, up.node, bad, key=up.qualname + "::acts-after-rejection", input="t = T(x=s.param.v); t.param.update(x=<invalid>) -> raises AND t.x is unlinked")
+    else:
+        ctx.ok("R02.w", up, up.node, "3 abstract cases: the rejection propagates and nothing else is done")
+
 
 def _enclosing_fors(fnode, target):
     out = []
@@ -178,4 +225,3 @@ def _enclosing_fors(fnode, target):
         return False
     visit(fnode, [])
     return out
-
